@@ -342,5 +342,61 @@ def multi_set(tier, seed):
     return out
 
 
+def legal_header_sequences(maxlen):
+    """every legal sequence of section levels: H1 anywhere; H2 anywhere (before the first H1 it hangs off the page
+    head); H3 only inside an open H2; H4 only inside an open H3"""
+    out = [[]]
+    frontier = [[]]
+    for _ in range(maxlen):
+        nxt = []
+        for seq in frontier:
+            for lvl in (1, 2, 3, 4):
+                if lvl >= 3:
+                    prev = [x for x in seq if x < lvl]
+                    if not prev or prev[-1] != lvl - 1:
+                        continue
+                    # the enclosing level-(lvl-1) header must still be open: no header of a lower level after it
+                    k = max(i for i, x in enumerate(seq) if x == lvl - 1)
+                    if any(x < lvl - 1 for x in seq[k + 1:]):
+                        continue
+                nxt.append(seq + [lvl])
+        out += nxt
+        frontier = nxt
+    return out
+
+
+def section_set(tier):
+    """every legal header sequence up to the bound, with and without a block in front of the first header;
+    one item directly under every header; the first item carries a menu-valued body-word hole"""
+    out = []
+    maxlen = 3 if tier == "quick" else 4
+    for seq in legal_header_sequences(maxlen):
+        for lead in (True, False):
+            if not seq and not lead:
+                continue
+            lines = [("title", "title"), ("blank", None)]
+            n = 0
+            first = True
+
+            def item():
+                nonlocal n, first
+                kind = KINDS[n % len(KINDS)]
+                words = ["n%d" % n] + ([Hole("w", "bw", "idm")] if first else []) + ["text"]
+                it = Item(kind, pri=("P%d" % (n % 10)) if kind != "-" and n % 2 else None, layout="zid",
+                          lay={"zid": "2405%02d#0%s" % (10 + n, "RSTUVWXYZ"[n % 9])}, words=words)
+                n += 1
+                first = False
+                return ("item", it)
+            if lead:
+                lines.append(item())
+            for lvl in seq:
+                if len(lines) > 2:
+                    lines.append(("blank", None))
+                lines.append(("h%d" % lvl, "S%d" % lvl))
+                lines.append(item())
+            out.append(PageSpec("sect-%s-%s" % ("".join(map(str, seq)) or "none", "lead" if lead else "nolead"), lines))
+    return out
+
+
 def all_specs(tier, seed):
-    return core_set(tier) + layout_set(tier) + multi_set(tier, seed)
+    return core_set(tier) + layout_set(tier) + multi_set(tier, seed) + section_set(tier)
